@@ -6,6 +6,9 @@ pub mod c06;
 pub mod c08;
 pub mod c09;
 pub mod c12;
+pub mod c15;
+pub mod c16;
+pub mod c17;
 pub mod c13;
 
 pub const ALL: &[&str] = &[
@@ -21,6 +24,9 @@ pub fn plan(id: &str, tier: Tier) -> Option<Plan> {
         "C09" => Some(c09::plan(tier)),
         "C12" => Some(c12::plan(tier)),
         "C13" => Some(c13::plan(tier)),
+        "C15" => Some(c15::plan(tier)),
+        "C16" => Some(c16::plan(tier)),
+        "C17" => Some(c17::plan(tier)),
         _ => None,
     }
 }
